@@ -264,7 +264,8 @@ example : Str.contains "hello".toList "ell".toList = true := by decide
 open EvalFilter.Exec in
 /-- **Compiler + VM correctness for expressions.**  For every expression of the value-producing fragment
     (literals, identifiers/fields, prefix and binary operators incl. `~=` `in` `..` `.`, index, array
-    literals, the ternary - any size, any nesting), the code the compiler emits for it, placed anywhere
+    literals, hash literals written in the compiler's key order, the ternary - any size, any nesting),
+    the code the compiler emits for it, placed anywhere
     in a program that fits the 16-bit operand space, computes exactly `evalE`: operands left to right,
     then the operator of the laws above; the first error ends the run with that error; on success the
     value is on top of the stack and the VM continues right behind the code. -/
